@@ -10,6 +10,7 @@ import (
 	"os"
 	"os/exec"
 	"path/filepath"
+	"reflect"
 	"regexp"
 	goruntime "runtime"
 	"strings"
@@ -17,9 +18,9 @@ import (
 	"syscall"
 	"time"
 
+	"github.com/php-any/origami/cmd"
 	"github.com/php-any/origami/data"
 	"github.com/php-any/origami/parser"
-	"github.com/php-any/origami/runtime"
 	"github.com/php-any/origami/std"
 	netannotation "github.com/php-any/origami/std/net/annotation"
 	"github.com/php-any/origami/std/net/http"
@@ -36,7 +37,7 @@ import (
 type Outcome struct {
 	Stdout string `json:"o"`
 	Stderr string `json:"e"`
-	Status int    `json:"s"` // exit status (process) / 0 | 1 (fresh VM: 1 = uncaught throw reached the VM's throw control)
+	Status int    `json:"s"`           // exit status (process) / 0 | 1 (fresh VM: 1 = uncaught throw reached the VM's throw control)
 	Note   string `json:"n,omitempty"` // go-panic:<msg> | timeout | killed
 }
 
@@ -165,17 +166,63 @@ func runProcess(bin, file, dir string, timeout time.Duration) Outcome {
 
 // ---------------------------------------------------------------- fresh VMs inside one process (child of the harness)
 
-// newVM builds a VM exactly the way the interpreter's main package does (zy.go + cmd/runtime.go).
-func newVM() (*runtime.VM, *parser.Parser) {
-	p := parser.NewParser()
-	vm := runtime.NewVM(p)
-	std.Load(vm)
-	php.Load(vm)
-	http.Load(vm)
-	websocket.Load(vm)
-	netannotation.Load(vm)
-	system.Load(vm)
-	return vm.(*runtime.VM), p
+// ---- the entry path of a run, mirrored
+//
+// A fresh-VM run goes through cmd.RunScriptFile itself — the function `origami <file>` calls — with
+// a runtime loader that makes the Load calls of zy.go's init. The one thing that cannot be kept is the
+// end of the VM's default throw control (runtime.NewVM: flush the output buffers, report the control,
+// os.Exit(1)): the loader replaces it by the same three steps with "the run is over, status 1" instead
+// of os.Exit(1) (runtime.Goexit of the script goroutine, which no script-level `try` can intercept).
+// What these functions do is regenerated from the source on every check run and compared with the
+// table this mirror was written from (theorem C20_entry_path_as_mirrored, C20Sites.expectedEntry).
+
+// runState: the status of the run in progress (in-process runs are serial within a child)
+type runState struct {
+	status int
+}
+
+var curRun *runState
+
+// parserOf reaches the parser the VM was built with (runtime.VM.parser, the one the default throw
+// control reports with); there is no accessor.
+func parserOf(vm data.VM) *parser.Parser {
+	rv := reflect.ValueOf(vm)
+	if rv.Kind() != reflect.Pointer || rv.Elem().Kind() != reflect.Struct {
+		return nil
+	}
+	f := rv.Elem().FieldByName("parser")
+	if !f.IsValid() || f.Kind() != reflect.Pointer || f.IsNil() {
+		return nil
+	}
+	return (*parser.Parser)(f.UnsafePointer())
+}
+
+func init() {
+	cmd.SetRuntimeLoader(func(vm data.VM) {
+		// zy.go init
+		std.Load(vm)
+		php.Load(vm)
+		http.Load(vm)
+		websocket.Load(vm)
+		netannotation.Load(vm)
+		system.Load(vm)
+		// runtime.NewVM's throw control, with the end of the process replaced by the end of the run
+		p := parserOf(vm)
+		vm.SetThrowControl(func(acl data.Control) {
+			if data.FlushAllBuffersFn != nil {
+				data.FlushAllBuffersFn()
+			}
+			if p != nil {
+				p.ShowControl(acl)
+			} else {
+				fmt.Fprintln(os.Stderr, "c20 harness: runtime.VM has no field `parser` any more; cannot report the control")
+			}
+			if curRun != nil {
+				curRun.status = 1
+			}
+			goruntime.Goexit()
+		})
+	})
 }
 
 var (
@@ -222,14 +269,14 @@ func capRead() (string, string) {
 	return read(capOut), read(capErr)
 }
 
-// runVM runs the script file on a brand-new VM, the way cmd.RunScriptFile does
-// (LoadAndRun, ShowControl on an error, RunShutdownCallbacks). An uncaught throw reaching the VM's
-// throw control prints the diagnostic and ends the run with status 1 (the CLI calls os.Exit(1)
-// there; here the script goroutine is ended with runtime.Goexit, which no script-level `try`
-// can intercept).
+// runVM runs the script file on a brand-new VM through cmd.RunScriptFile, the entry point of
+// `origami <file>` (zy.go main: status 1 when it returns an error). An uncaught throw reaching the
+// VM's throw control ends the run with status 1 (see the loader above).
 func runVM(file string) (o Outcome) {
 	capReset()
 	done := make(chan struct{})
+	st := &runState{}
+	curRun = st
 	go func() {
 		defer close(done)
 		defer func() {
@@ -239,22 +286,16 @@ func runVM(file string) (o Outcome) {
 				} else {
 					o.Note = "go-panic:" + firstLine(fmt.Sprint(r))
 				}
-				o.Status = 2
+				st.status = 2
 			}
 		}()
-		vm, p := newVM()
-		vm.SetThrowControl(func(acl data.Control) {
-			p.ShowControl(acl)
-			o.Status = 1
-			goruntime.Goexit()
-		})
-		_, err := vm.LoadAndRun(file)
-		if err != nil {
-			p.ShowControl(err)
+		if err := cmd.RunScriptFile(file); err != nil {
+			st.status = 1
 		}
-		vm.RunShutdownCallbacks()
 	}()
 	<-done
+	curRun = nil
+	o.Status = st.status
 	o.Stdout, o.Stderr = capRead()
 	return o
 }
@@ -269,9 +310,9 @@ func firstLine(s string) string {
 // job sent to the child; one answer line per job.
 type vmJob struct {
 	ID    int      `json:"id"`
-	Files []string `json:"files"` // run these in this order, each on its own fresh VM …
-	Reps  int      `json:"reps"`  // … and repeat the whole sequence this many times
-	Dir   string   `json:"dir"`   // working directory for the job
+	Files []string `json:"files"`  // run these in this order, each on its own fresh VM …
+	Reps  int      `json:"reps"`   // … and repeat the whole sequence this many times
+	Dir   string   `json:"dir"`    // working directory for the job
 	MaxMS int64    `json:"max_ms"` // stop repeating after this much time (0 = no limit); at least 3 repetitions are made
 }
 
@@ -408,12 +449,25 @@ func (w *vmWorker) do(j vmJob, timeout time.Duration) (vmAnswer, bool) {
 
 // vmPool runs jobs on n children; a job whose child dies is reported with ok=false.
 type vmResult struct {
-	Job vmJob
-	Ans vmAnswer
-	OK  bool
+	Job    vmJob
+	Ans    vmAnswer
+	OK     bool
+	Before []string // the files the same child had run before this job (empty: the job had a child of its own)
 }
 
+// runVMJobs: long-lived children, each taking the next job when it is free — a job runs after
+// whatever its child happened to run before (recorded in Before).
 func runVMJobs(scratch string, n int, jobs []vmJob, timeout time.Duration) []vmResult {
+	return runJobs(scratch, n, jobs, timeout, false)
+}
+
+// runFreshJobs: every job in a brand-new child process that is ended afterwards — the first program
+// of the job is the first thing that process runs.
+func runFreshJobs(scratch string, n int, jobs []vmJob, timeout time.Duration) []vmResult {
+	return runJobs(scratch, n, jobs, timeout, true)
+}
+
+func runJobs(scratch string, n int, jobs []vmJob, timeout time.Duration, fresh bool) []vmResult {
 	res := make([]vmResult, len(jobs))
 	var mu sync.Mutex
 	next := 0
@@ -423,6 +477,7 @@ func runVMJobs(scratch string, n int, jobs []vmJob, timeout time.Duration) []vmR
 		go func() {
 			defer wg.Done()
 			var w *vmWorker
+			var before []string
 			defer func() { w.kill() }()
 			for {
 				mu.Lock()
@@ -435,14 +490,17 @@ func runVMJobs(scratch string, n int, jobs []vmJob, timeout time.Duration) []vmR
 				mu.Unlock()
 				if w == nil {
 					var err error
+					before = nil
 					if w, err = startVMWorker(scratch); err != nil {
 						res[k] = vmResult{Job: jobs[k]}
+						w = nil
 						continue
 					}
 				}
 				a, ok := w.do(jobs[k], timeout)
-				res[k] = vmResult{Job: jobs[k], Ans: a, OK: ok}
-				if !ok {
+				res[k] = vmResult{Job: jobs[k], Ans: a, OK: ok, Before: append([]string(nil), before...)}
+				before = append(before, jobs[k].Files...)
+				if !ok || fresh {
 					w.kill()
 					w = nil
 				}
